@@ -265,6 +265,25 @@ def live_failures(wd, pid, sub, seed):
     return out
 
 
+def partial_stats(wd):
+    """Coverage a worker had reported (every 20 000 cases per thread) before it hung or died."""
+    tot = {"evaluations": 0, "distinct_nontrivial": 0, "regressions_replayed": 0, "enumerated": 0, "random": 0, "samples": [], "classes": {}, "rule": "", "bound": "",
+           "exhaustive": False, "known_hits": {}, "essential_classes_missing": [], "partial": True, "wall_s": 0.0}
+    found = False
+    for name in sorted(os.listdir(wd)):
+        if name.startswith("progress.") and name.endswith(".json"):
+            try:
+                p = json.load(open(os.path.join(wd, name)))
+            except Exception:
+                continue
+            found = True
+            for k in ("evaluations", "distinct_nontrivial", "regressions_replayed", "enumerated", "random"):
+                tot[k] += p.get(k, 0)
+            if not tot["samples"]:
+                tot["samples"] = p.get("samples", [])
+    return tot if found else None
+
+
 def finish_native(h):
     p, wd, sub, pid, seed = h["proc"], h["wd"], h["sub"], h["pid"], h["seed"]
     try:
@@ -272,7 +291,7 @@ def finish_native(h):
     except subprocess.TimeoutExpired:
         p.kill()
         p.communicate()
-        res = {"sub": sub, "status": "timeout", "stats": None, "violations": [], "note": "watchdog after %ds" % h["timeout"]}
+        res = {"sub": sub, "status": "timeout", "stats": partial_stats(wd), "violations": [], "note": "watchdog after %ds" % h["timeout"]}
         res["violations"] = live_failures(wd, pid, sub, seed)
         return res
     wall = time.time() - h["t0"]
@@ -312,6 +331,7 @@ def finish_native(h):
         path = save_replay(pid, sub, seed, case, sig, verdict, "crash-journal")
         res["violations"].append({"sig": sig, "verdict": verdict, "replay": path})
     res["violations"] += live_failures(wd, pid, sub, seed)
+    res["stats"] = partial_stats(wd)
     if not res["violations"]:
         res["status"] = "error"
         res["note"] += " ; no journalled case reproduces the crash"
@@ -338,7 +358,7 @@ def write_evidence(pid, tier, seed, level, results, wall, nviol, extra_cov=None,
             continue
         evals += st["evaluations"]
         dn = max(dn, st["distinct_nontrivial"])
-        rule = st.get("rule", rule)
+        rule = st.get("rule") or rule
         bound = st.get("bound", bound) or bound
         exhaustive = exhaustive or bool(st.get("exhaustive"))
         for k, v in st.get("classes", {}).items():
@@ -457,7 +477,7 @@ def main(argv, verif):
     write_evidence(pid, tier, seed, PROPS[pid]["level"], results, wall, len(violations), extra_cov={"build_s": round(build_s, 2)}, known_lines=known_lines)
     for r in results:
         st = r.get("stats")
-        if st:
+        if st and not st.get("partial"):
             log("[%s %s] %d cases (%d regression, %d enumerated, %d random), %d distinct non-trivial, %.1fs%s" % (
                 pid, r["sub"], st["evaluations"], st["regressions_replayed"], st["enumerated"], st["random"], st["distinct_nontrivial"], st["wall_s"],
                 (" ; MISSING essential classes: %s" % st["essential_classes_missing"]) if st.get("essential_classes_missing") else ""))
